@@ -636,6 +636,20 @@ impl State {
                 std::fs::write(&p, b).unwrap();
                 "ok".into()
             }
+            "truncfile" => {
+                // truncfile <dir> <file> <len> : cut a closed file to its first <len> bytes
+                let p = self.root.join(t[1]).join(t[2]);
+                let mut b = std::fs::read(&p).unwrap();
+                b.truncate(t[3].parse().unwrap());
+                std::fs::write(&p, b).unwrap();
+                "ok".into()
+            }
+            "writefile" => {
+                // writefile <dir> <file> <hex|-> : replace a closed file by the given bytes
+                let p = self.root.join(t[1]).join(t[2]);
+                std::fs::write(&p, unhex(t[3])).unwrap();
+                "ok".into()
+            }
             "cpfile" => {
                 // cpfile <dir> <src> <dst>
                 let d = self.root.join(t[1]);
